@@ -20,10 +20,10 @@ var starveQuick = map[string][]string{
 	"C07": {""},
 	"C08": {""},
 	"C09": {"C09/engine/"},
-	"C10": {"C10/task-race", "C10/sub-race", "C10/task-burst", "C10/sub-burst", "C10/task-timer", "C10/sub-timer", "C10/task/[I]/", "C10/sub/[I]/", "C10/task/[N]/", "C10/task/[I,N]/pre=false"},
-	"C11": {"C11/burst", "C11/arrival", "C11/one/", "C11/behind/", "C11/sub-unentered/", "C11/same/signal", "C11/par/signal", "C11/operation/message"},
+	"C10": {"C10/task-race", "C10/sub-race/[I]", "C10/sub-race/[I,N]", "C10/task-burst", "C10/sub-burst/[I,N]", "C10/task-timer", "C10/sub-timer/[I]", "C10/task/[I]/pre=false", "C10/sub/[I]/pre=false", "C10/task/[N]/pre=false"},
+	"C11": {"C11/burst", "C11/arrival", "C11/one/signal", "C11/behind/signal", "C11/sub-unentered/signal", "C11/same/signal", "C11/operation/message"},
 	"C12": {"short:34", "C12/unjoined/"},
-	"C13": {"C13/process/", "C13/process-behind/duration", "C13/process-behind/R2/", "C13/process-loop/R2/"},
+	"C13": {"C13/process/duration", "C13/process/R2", "C13/two-instances"},
 	"C14": {"C14/engine/straight/signal/k2", "C14/engine/loop/signal/k2", "C14/engine/two-tokens/signal/k2", "C14/engine/behind-task/signal/k2"},
 	"C17": {""},
 	"C18": {"waits[0]/"},
